@@ -1,5 +1,14 @@
 # id -> (technique, level_claimed.text, design_ref)
 CLAIMED = {
+    "C04": (
+        "linear-inequality guard analysis on go/ssa: path conditions of every success/error return compared (Fourier-Motzkin entailment) with the documented argument domain, universal element facts from validation loops, index-safety proofs for row buffers and the partition table, linear-form comparison of Concat's pad lengths",
+        "Decides statically the boundary clause of C04 (positions or windows outside the alignment are rejected with an error rather than a crash or a silently shifted window) for every value of the integer arguments: "
+        "SubAlign/InverseCoordinates accept exactly 0<=start, 0<=length, start+length<=L; TrimSequences exactly 0<=trimsize<=L-1; ReplaceChar/CharStatsSite/SiteConservation exactly 0<=site<=L-1; SelectSites/InversePositions/RefSites "
+        "validate every element of the site list against 0<=s<=L-1 before any success return and reject no in-range element; PartitionSet.AddRange accepts exactly 0<=start, end<=length-1, modulo>=1 and its table indices are in bounds "
+        "(struct invariant length==len(partitions) checked by field-write ownership); every row-buffer index/slice in SubAlign, SelectSites, TrimSequences, Transpose and Split is proven within bounds on every path; Split's column loop is "
+        "dominated by the partition-length==alignment-length check; Concat pads a row absent from one alignment with GAP repeated that alignment's length. NOT decided: that the copied columns are the addressed ones in the addressed order, "
+        "RefCoordinates' scan, re-assembly identities (prefix+suffix, transpose twice, diff/match-char expansion). Level 'other': necessary structural conditions, not the behaviour.",
+        "DESIGN.md §3 C04"),
     "C05": (
         "constant-table evaluation against NCBI/IUPAC oracles + SSA dispatch/value-flow rules + linear loop-shape proof",
         "Decides statically, on every run, the table/dispatch/loop-shape clauses of C05: the three genetic-code literals equal NCBI tables 1, 2, 5 row by row "
